@@ -54,28 +54,12 @@ Section GridFun.
   Qed.
 
   (* ---- _integrate ---------------------------------------------------------------------------------------------- *)
-  (* correct where the multiplier applied a second time changes nothing (multipliers 0/1: DP0, DP1, P1) *)
-  Theorem integrate_idempotent_multipliers nel rule intel (S : space A) (ev : basisfn) coef d :
-    (forall e i q, In e (support_elements nel S) -> (i < sp_ns S)%nat -> In q rule ->
-                   ev e i (fst q) d * sp_mult S e i == ev e i (fst q) d) ->
+  (* integrate() is the quadrature of the represented function, for every space (signed multipliers included) *)
+  Theorem integrate_is_direct_quadrature nel rule intel (S : space A) (ev : basisfn) coef d :
     integrate nel rule intel S ev coef d == integrate_direct nel rule intel S ev coef d.
   Proof.
-    intros H. unfold integrate, integrate_direct. apply sumf_ext; intros e He.
+    unfold integrate, integrate_direct. apply sumf_ext_all; intros e.
     apply rmul_proper; [|reflexivity]. unfold gf_eval.
-    rewrite sumf_exchange. apply sumf_ext; intros q Hq. rewrite <- sumf_scal_r.
-    apply sumf_ext; intros i Hi. apply in_seq in Hi.
-    transitivity (ev e i (fst q) d * sp_mult S e i * snd q * coef (sp_l2g S e i)); [ring|].
-    rewrite H by (auto; lia). ring.
-  Qed.
-
-  (* what the code computes in general: the multipliers enter squared *)
-  Theorem integrate_applies_multipliers_twice nel rule intel (S : space A) (sh : basisfn) coef d :
-    integrate nel rule intel S (fun e i p d => sh e i p d * sp_mult S e i) coef d ==
-    sumf (fun e => sumf (fun q => sumf (fun i =>
-            sh e i (fst q) d * (sp_mult S e i * sp_mult S e i) * coef (sp_l2g S e i)) (seq 0 (sp_ns S)) * snd q) rule
-            * intel e) (support_elements nel S).
-  Proof.
-    unfold integrate. apply sumf_ext_all; intros e. apply rmul_proper; [|reflexivity].
     rewrite sumf_exchange. apply sumf_ext_all; intros q. rewrite <- sumf_scal_r.
     apply sumf_ext_all; intros i. ring.
   Qed.
@@ -102,49 +86,55 @@ Section GridFun.
   Qed.
 
   (* ---- MultiplicationOperator ------------------------------------------------------------------------------------ *)
-  Lemma combine_seq_id n m : combine (seq n m) (seq n m) = map (fun e => (e, e)) (seq n m).
-  Proof. revert n; induction m; intros n; simpl; [reflexivity|]. rewrite IHm. reflexivity. Qed.
+  (* global basis function r of a space restricted to element e (the evaluator contains the multipliers) *)
+  Definition gfun (r : nat) (S : space A) (ev : basisfn) (e : nat) (p : pt2 A) (d : nat) : A :=
+    sumf (fun i => delta r (sp_l2g S e i) * ev e i p d) (seq 0 (sp_ns S)).
 
-  (* on whole-grid spaces position and element index coincide and the code assembles the intended operator *)
-  Theorem mult_op_whole_grid nel dim rule intel (St Sr Sf : space A) evt evr evf gcoef :
-    (forall e, (e < nel)%nat -> sp_support St e = true /\ sp_support Sr e = true /\ sp_support Sf e = true) ->
-    mult_op_core nel dim rule intel St Sr Sf evt evr evf gcoef =
-    mult_op_intended nel dim rule intel St Sr Sf evt evr evf gcoef.
+  Lemma sumf_exchange4 {I J D Q} (f : I -> J -> D -> Q -> A) li lj ld lq :
+    sumf (fun i => sumf (fun j => sumf (fun d => sumf (fun q => f i j d q) lq) ld) lj) li ==
+    sumf (fun d => sumf (fun q => sumf (fun i => sumf (fun j => f i j d q) lj) li) lq) ld.
   Proof.
-    intros H. unfold mult_op_core, mult_op_intended, mult_op_triplets, enumerate, mult_elements.
-    rewrite filter_all_true.
-    2:{ intros e He. apply in_seq in He. destruct (H e) as (-> & -> & ->); [lia|reflexivity]. }
-    rewrite seq_length, combine_seq_id. rewrite !flat_map_concat_map, !map_map. reflexivity.
+    transitivity (sumf (fun i => sumf (fun d => sumf (fun j => sumf (fun q => f i j d q) lq) lj) ld) li).
+    { apply sumf_ext_all; intros i. apply (sumf_exchange (fun j d => sumf (fun q => f i j d q) lq)). }
+    rewrite (sumf_exchange (fun i d => sumf (fun j => sumf (fun q => f i j d q) lq) lj)).
+    apply sumf_ext_all; intros d.
+    transitivity (sumf (fun i => sumf (fun q => sumf (fun j => f i j d q) lj) lq) li).
+    { apply sumf_ext_all; intros i. apply (sumf_exchange (fun j q => f i j d q)). }
+    apply (sumf_exchange (fun i q => sumf (fun j => f i j d q) lj)).
+  Qed.
+
+  Lemma mult_entry_sum (Lm : nat -> nat -> nat -> A) nel (St Sr Sf : space A) r c :
+    scatter (mult_op_triplets Lm nel St Sr Sf) r c ==
+    sumf (fun e => sumf (fun i => sumf (fun j => delta r (sp_l2g St e i) * Lm e i j * delta c (sp_l2g Sr e j))
+                                       (seq 0 (sp_ns Sr))) (seq 0 (sp_ns St))) (mult_elements nel St Sr Sf).
+  Proof.
+    rewrite entry_scatter. unfold mult_op_triplets. rewrite sumf_flat_map. apply sumf_ext_all; intros e.
+    rewrite sumf_flat_map. apply sumf_ext_all; intros i. rewrite sumf_map. reflexivity.
+  Qed.
+
+  (* mode 'component': entry (r, c) = sum_e J_e sum_q w_q sum_d Phi_r(e,q,d) * g(e,q,d) * Psi_c(e,q,d):
+     the L2 product of test function r with g times trial function c, by quadrature, over the common support *)
+  Theorem mult_op_entry nel dim rule intel (St Sr Sf : space A) evt evr evf gcoef r c :
+    scatter (mult_op_core nel dim rule intel St Sr Sf evt evr evf gcoef) r c ==
+    sumf (fun e => sumf (fun d => sumf (fun q =>
+            gfun r St evt e (fst q) d * (gf_eval Sf evf gcoef e (fst q) d * gfun c Sr evr e (fst q) d)
+            * (snd q * intel e)) rule) (seq 0 dim)) (mult_elements nel St Sr Sf).
+  Proof.
+    unfold mult_op_core. rewrite mult_entry_sum. apply sumf_ext_all; intros e.
+    transitivity (sumf (fun d => sumf (fun q => sumf (fun i => sumf (fun j =>
+        (delta r (sp_l2g St e i) * evt e i (fst q) d) * (delta c (sp_l2g Sr e j) * evr e j (fst q) d)
+        * (gf_eval Sf evf gcoef e (fst q) d * (snd q * intel e))) (seq 0 (sp_ns Sr))) (seq 0 (sp_ns St))) rule) (seq 0 dim)).
+    - rewrite <- sumf_exchange4. apply sumf_ext_all; intros i. apply sumf_ext_all; intros j.
+      unfold mult_local, mult_scale.
+      transitivity (sumf (fun d => sumf (fun q => (delta r (sp_l2g St e i) * delta c (sp_l2g Sr e j)) *
+          (evt e i (fst q) d * (evr e j (fst q) d * (gf_eval Sf evf gcoef e (fst q) d * snd q * intel e)))) rule) (seq 0 dim)).
+      + etransitivity; [|apply sumf_ext_all; intros d; symmetry; apply sumf_scal_l]. rewrite sumf_scal_l. ring.
+      + apply sumf_ext_all; intros d. apply sumf_ext_all; intros q. ring.
+    - apply sumf_ext_all; intros d. apply sumf_ext_all; intros q. unfold gfun.
+      transitivity (sumf (fun i => delta r (sp_l2g St e i) * evt e i (fst q) d) (seq 0 (sp_ns St)) *
+                    sumf (fun j => delta c (sp_l2g Sr e j) * evr e j (fst q) d) (seq 0 (sp_ns Sr)) *
+                    (gf_eval Sf evf gcoef e (fst q) d * (snd q * intel e))); [|ring].
+      rewrite sum_prod, <- sumf_scal_r. apply sumf_ext_all; intros i. rewrite <- sumf_scal_r. reflexivity.
   Qed.
 End GridFun.
 
-(* ---- refutations over Q (witnesses evaluated by vm_compute) ------------------------------------------------------ *)
-Local Close Scope cr_scope.
-Open Scope Q_scope.
-
-(* one element, one basis function with multiplier -1 (an RWG/SNC function seen from its second triangle),
-   coefficient 1, one quadrature point of weight 1/2: the code returns +1/2, the integral of the function is -1/2 *)
-Definition refute_space : space Q := mkSpace 1 (fun _ => true) (fun _ _ => 0%nat) (fun _ _ => -1) [[0%nat]].
-Definition refute_ev : @basisfn Q := fun e i p d => 1 * -1.
-Definition refute_rule : list (pt2 Q * Q) := [((0, 0), 1 # 2)].
-
-Theorem integrate_refuted :
-  exists (nel : nat) (rule : list (pt2 Q * Q)) (intel : nat -> Q) (S : space Q) (sh : @basisfn Q) (coef : nat -> Q) (d : nat),
-    let ev := fun e i p d => (sh e i p d * sp_mult S e i)%Q in
-    ~ (integrate nel rule intel S ev coef d == integrate_direct nel rule intel S ev coef d).
-Proof.
-  exists 1%nat, refute_rule, (fun _ => 1), refute_space, (fun _ _ _ _ => 1), (fun _ => 1), 0%nat.
-  vm_compute. discriminate.
-Qed.
-
-(* two elements with integration elements 1 and 3, all three spaces supported on element 1 only: the code reads
-   integration_elements[0] *)
-Definition seg_space : space Q := mkSpace 1 (fun e => Nat.eqb e 1) (fun _ _ => 0%nat) (fun _ _ => 1) [[1%nat]].
-Theorem mult_op_refuted_on_segments :
-  exists (nel dim : nat) (rule : list (pt2 Q * Q)) (intel : nat -> Q) (S : space Q) (ev : @basisfn Q) (g : nat -> Q),
-    ~ (scatter (mult_op_core nel dim rule intel S S S ev ev ev g) 0%nat 0%nat ==
-       scatter (mult_op_intended nel dim rule intel S S S ev ev ev g) 0%nat 0%nat).
-Proof.
-  exists 2%nat, 1%nat, refute_rule, (fun e => if Nat.eqb e 0 then 1 else 3), seg_space, (fun _ _ _ _ => 1), (fun _ => 1).
-  vm_compute. discriminate.
-Qed.
